@@ -48,3 +48,9 @@ def run(prop="C05", tier="quick", rules=("R-STALE", "R-CLOBBER", "R-OVERLAP", "R
 def run_mem(prop="C04", tier="quick"):
     """C04 view: stale limb pointers and writes past the size just requested"""
     return run(prop, tier, rules=("R-STALE", "R-EXTENT"))
+
+
+def run_c03(prop="C03", tier="quick"):
+    """C03 view: 'the integer functions built on them return the exact signed result' also when the destination is one of the sources
+    (in-place use is part of the property's quantifier): R-STALE / R-CLOBBER findings inside the mpz functions the property names."""
+    return scope_to_anchors(run(prop, tier, rules=("R-STALE", "R-CLOBBER")), prop)
